@@ -126,7 +126,8 @@ package libmem
 //@   ensures[C06,C07] forall id string :: id != req.id ==> (id in result) == old(id in a.journal.updates) && result[id] == old(a.journal.updates[id])
 
 // Requests known to the allocator are the ones stored in the zones.
-//@ pure rwf(a *Allocator) bool = forall z NodeMask, id string :: z in a.zones && id in a.zones[z].users ==> id in a.requests && a.requests[id] == a.zones[z].users[id] && a.zones[z].users[id].zone == z
+//@ pure rwf(a *Allocator) bool = (forall z NodeMask, id string :: z in a.zones && id in a.zones[z].users ==> id in a.requests && a.requests[id] == a.zones[z].users[id] && a.zones[z].users[id].zone == z) &&
+//@    (forall id string :: id in a.requests ==> a.requests[id] != nil && a.requests[id].id == id)
 
 //@ func (*Allocator).revertJournal ints=bv64
 //@   requires awf(a) && rwf(a)
@@ -237,7 +238,8 @@ package libmem
 
 // ---- allocate / realloc / release (internal) -----------------------------------------------------------------
 
-//@ pure idle(a *Allocator) bool = awf(a) && rwf(a) && a.journal == nil && nocustom(a) && a.masks != nil
+//@ pure assigned(a *Allocator) bool = forall id string :: id in a.requests ==> id in a.users
+//@ pure idle(a *Allocator) bool = awf(a) && rwf(a) && a.journal == nil && nocustom(a) && a.masks != nil && assigned(a)
 
 //@ func (*Allocator).allocate ints=bv64
 //@   requires idle(a) && req != nil
@@ -257,3 +259,67 @@ package libmem
 //@   ensures[C06] result == nil ==> dom(a.users) == upd(old(dom(a.users)), req.id, false) && vals(a.users) == upd(old(vals(a.users)), req.id, 0)
 //@   ensures[C06] result == nil ==> dom(a.requests) == upd(old(dom(a.requests)), req.id, false) && vals(a.requests) == upd(old(vals(a.requests)), req.id, nil)
 //@   ensures[C06] result != nil ==> dom(a.users) == old(dom(a.users)) && vals(a.users) == old(vals(a.users)) && dom(a.requests) == old(dom(a.requests)) && vals(a.requests) == old(vals(a.requests)) && a.version == old(a.version)
+
+//@ func (*Allocator).cleanupUnusedZones ints=bv64
+//@   requires awf(a)
+//@   modifies a.zones[*]
+//@   ensures[C06] awf(a) && (old(rwf(a)) ==> rwf(a))
+//@   ensures[C06] forall z NodeMask :: z in a.zones ==> old(z in a.zones) && a.zones[z] == old(a.zones[z])
+//@ loop 0 in (*Allocator).cleanupUnusedZones at "range a.zones"
+//@   modifies a.zones[*]
+//@   invariant awf(a) && (old(rwf(a)) ==> rwf(a))
+//@   invariant forall z NodeMask :: z in a.zones ==> old(z in a.zones) && a.zones[z] == old(a.zones[z])
+
+//@ func (*Allocator).invalidateOffers
+//@   requires a != nil
+//@   modifies a.version
+//@   ensures[C06] a.version == old(a.version) + 1
+
+// ---- public operations --------------------------------------------------------------------------------------------
+// view = (users, requests); "unchanged" = both maps have the same domain and values as before.
+
+//@ func (*Allocator).Release ints=bv64
+//@   requires idle(a)
+//@   ensures[C06] awf(a) && rwf(a) && a.journal == nil && assigned(a)
+//@   ensures[C06] result == nil ==> old(id in a.requests) && a.version != old(a.version)
+//@   ensures[C06] result == nil ==> dom(a.users) == upd(old(dom(a.users)), id, false) && vals(a.users) == upd(old(vals(a.users)), id, 0)
+//@   ensures[C06] result == nil ==> dom(a.requests) == upd(old(dom(a.requests)), id, false) && vals(a.requests) == upd(old(vals(a.requests)), id, nil)
+//@   ensures[C06] result != nil ==> dom(a.users) == old(dom(a.users)) && vals(a.users) == old(vals(a.users)) && dom(a.requests) == old(dom(a.requests)) && vals(a.requests) == old(vals(a.requests)) && a.version == old(a.version)
+
+//@ func (*Allocator).Allocate ints=bv64
+//@   requires idle(a) && req != nil
+//@   ensures[C06] awf(a) && rwf(a) && a.journal == nil && assigned(a)
+//@   ensures[C06] result2 != nil ==> dom(a.users) == old(dom(a.users)) && vals(a.users) == old(vals(a.users)) && dom(a.requests) == old(dom(a.requests)) && vals(a.requests) == old(vals(a.requests))
+//@   ensures[C06] result2 == nil ==> a.version != old(a.version)
+//@   ensures[C06,C04] result2 == nil ==> req.id in a.users && a.users[req.id] == result0
+//@   ensures[C07,C04] result2 == nil ==> forall id string :: id != req.id ==> (id in result1) == (old(id in a.users) && a.users[id] != old(a.users[id])) && (id in result1 ==> result1[id] == a.users[id])
+//@   ensures[C07] result2 == nil ==> !(req.id in result1)
+//@   ensures[C07] result2 == nil ==> forall id string :: old(id in a.users) ==> id in a.users && (a.users[id] & old(a.users[id])) == old(a.users[id])
+//@   ensures[C07] result2 == nil ==> (result0 & a.masks.nodes.normal) != 0
+
+//@ func (*Allocator).GetOffer ints=bv64
+//@   requires idle(a) && req != nil
+//@   ensures[C06] awf(a) && rwf(a) && a.journal == nil && a.version == old(a.version) && assigned(a)
+//@   ensures[C06] dom(a.users) == old(dom(a.users)) && vals(a.users) == old(vals(a.users)) && dom(a.requests) == old(dom(a.requests)) && vals(a.requests) == old(vals(a.requests))
+//@   ensures[C06] result1 == nil ==> result0 != nil && result0.a == a && result0.req == req && result0.version == a.version
+
+//@ func (*Allocator).validateRealloc ints=bv64 tags=C06
+//@   requires a != nil && req != nil && a.masks != nil
+//@   modifies nothing
+
+//@ func (*Allocator).realloc ints=bv64
+//@   requires idle(a) && req != nil && req.id in a.requests && a.requests[req.id] == req && req.id in a.users
+//@   ensures[C06] awf(a) && rwf(a) && a.journal == nil && nocustom(a) && a.masks == old(a.masks)
+//@   ensures[C06] retErr != nil ==> dom(a.users) == old(dom(a.users)) && vals(a.users) == old(vals(a.users)) && a.version == old(a.version)
+//@   ensures[C06] dom(a.requests) == old(dom(a.requests)) && vals(a.requests) == old(vals(a.requests))
+//@   ensures[C06] retErr == nil && (updates != nil || zone != old(a.users[req.id])) ==> a.version != old(a.version)
+//@   ensures[C07] retErr == nil ==> forall id string :: old(id in a.users) ==> id in a.users && (a.users[id] & old(a.users[id])) == old(a.users[id])
+//@   ensures[C07,C04] retErr == nil ==> a.users[req.id] == zone
+//@   ensures[C07,C04] retErr == nil ==> forall id string :: id != req.id ==> (id in updates) == (old(id in a.users) && a.users[id] != old(a.users[id])) && (id in updates ==> updates[id] == a.users[id])
+
+//@ func (*Allocator).Realloc ints=bv64
+//@   requires idle(a)
+//@   ensures[C06] awf(a) && rwf(a) && a.journal == nil && assigned(a)
+//@   ensures[C06] result2 != nil ==> dom(a.users) == old(dom(a.users)) && vals(a.users) == old(vals(a.users))
+//@   ensures[C06] dom(a.requests) == old(dom(a.requests)) && vals(a.requests) == old(vals(a.requests))
+//@   ensures[C07] result2 == nil ==> forall k string :: old(k in a.users) ==> k in a.users && (a.users[k] & old(a.users[k])) == old(a.users[k])
